@@ -272,7 +272,7 @@ theorem inv_take (cfg : Cfg) (r : Run) (h : Inv cfg r) : Inv cfg (r.step cfg .ta
         simp only [hpend, hlost] at hdata
         simp only [Option.toList_some, List.flatMap_nil, List.append_nil, List.flatMap_cons] at hdata
         rcases addBlock_cases cfg r.s.afterTake b with ⟨p, hpay, hle, hab⟩ | ⟨hne', _⟩ | ⟨res, hfat, hab⟩
-        · simp only [Run.step, hso, hab, hpend, handoverLost, AddRes.isFatal, Bool.false_eq_true,
+        · simp only [Run.step, hso, hab, handoverLost, AddRes.isFatal, Bool.false_eq_true,
             ↓reduceIte, List.append_nil]
           have hnd0 : (keys ({} : Input).rollupData).Nodup := by simp [keys]
           refine ⟨?_, hemWF hne, ?_, ?_, ?_, h.lostFailed, h.fatalFailed⟩
